@@ -28,6 +28,8 @@ structure Coop (t : Table) (c : Cfg) (cfg : MCfg) : Prop where
 def Unamb (t : Table) (m : Name) : Prop :=
   ∀ l ∈ t, ∀ l' ∈ t, l.name = m → l'.pat = l.pat → l'.name = m
 
+instance (t : Table) (m : Name) : Decidable (Unamb t m) := by unfold Unamb; infer_instance
+
 /-! ### the device's reactions -/
 
 theorem tableMove_desc {t : Table} {ex : List (Name × Line × Name)} {a : Name} {la : Level}
@@ -57,6 +59,25 @@ theorem tableMove_esc {t : Table} (hc : CmdsOK t) {ex : List (Name × Line × Na
     by_cases hla : la.prev = ""
     · simp [hla, hl0]
     · simp [hla, this hla, hl0]
+
+/-- a line that is no escalate / deescalate command of a non-root level and no vendor move moves nothing -/
+theorem tableMove_none {t : Table} {ex : List (Name × Line × Name)} {line : Line}
+    (h1 : ∀ l ∈ t, l.prev = "" ∨ (l.desc ≠ line ∧ l.esc ≠ line)) (h2 : ∀ e ∈ ex, e.2.1 ≠ line) (m : Name) :
+    tableMove t ex m line = none := by
+  have b : t.find? (fun l => l.prev == m && l.prev != "" && l.esc == line) = none := by
+    apply List.find?_eq_none.mpr; intro l hl
+    rcases h1 l hl with h | h
+    · simp [h]
+    · simp [h.2]
+  have c' : ex.find? (fun e => e.1 == m && e.2.1 == line) = none := by
+    apply List.find?_eq_none.mpr; intro e he; simp [h2 e he]
+  unfold tableMove
+  cases hl : lookup t m with
+  | none => simp [b, c']
+  | some l =>
+    rcases h1 l (lookup_some hl).1 with h | h
+    · simp [h, b, c']
+    · simp [h.1, b, c']
 
 theorem exec_inert {cfg : MCfg} {t : Table} {s : MDev} {line : Line} (hp : s.pending = none)
     (hb : cfg.blocked = []) (hm : tableMove t cfg.extra s.mode line = none) :
